@@ -120,6 +120,10 @@ def r14_scale_free_regimes(ctx):
                     a, b = v0[x], v1[x]
                     if isinstance(a, Uninit) or isinstance(b, Uninit):
                         same = isinstance(a, Uninit) and isinstance(b, Uninit)
+                    elif not isinstance(a, F.Rat) or not isinstance(b, F.Rat):
+                        ctx.error(f"{tag}: coefficient {x} was not computed at an end of the family (as in R1)", where, f"{a!r} / {b!r}"[:300])
+                        diff = "undecided"
+                        break
                     else:
                         try:
                             same = a.equals(b)
@@ -129,6 +133,8 @@ def r14_scale_free_regimes(ctx):
                     if not same:
                         diff = {"coefficient": x, "slow end (s -> 0+)": repr(a)[:300], "fast end (s -> inf)": repr(b)[:300]}
                         break
+            if diff == "undecided":
+                continue
             ctx.check(diff is None, f"{tag}: the formulas of an elastic mode do not depend on its absolute time scale "
                                     f"({len(sites)} scale-dependent comparison(s) met)", where,
                       None if diff is None else dict(diff, comparisons=[t for _, t in sites],
